@@ -512,7 +512,9 @@ static void run_case(char **tok, int ntok)
 				unsigned guard = 0;
 				do {
 					r = code_once(&c, &strm, a);
-					if (++guard > 50000000u) { fail(&c, "no-progress", op); break; }
+					if (++guard > 50000000u) { fail(&c, "no-progress", op); dead = true; break; }
+					// no encoder expands its input by more than a few percent plus per-Block overhead
+					if (c.output.n > 2 * (c.input.n + dn) + ((size_t)1 << 20)) { fail(&c, "runaway-output", op); dead = true; break; }
 				} while (r == LZMA_OK);
 			}
 			const uint64_t used = strm.total_in - in_before;
@@ -520,7 +522,7 @@ static void run_case(char **tok, int ntok)
 			free(data);
 			strm.next_in = NULL;
 			strm.avail_in = 0;
-			dead = strm.internal->sequence == ISEQ_ERROR;
+			dead = dead || strm.internal->sequence == ISEQ_ERROR;
 
 			// ---- direct oracle ----
 			// history of expected Block boundaries
@@ -608,7 +610,7 @@ int main(void)
 		if (ntok > 0) {
 			// watchdog: a case that takes longer than this hangs (the harness is killed by SIGALRM; the Python side
 			// then replays the lines one by one and reports the one that hangs)
-			alarm(240);
+			alarm(120);
 			if (!strcmp(tok[0], "case")) run_case(tok, (int)ntok);
 			else printf("bad-op\n");
 			fflush(stdout);
